@@ -19,9 +19,14 @@ Basic == <<"loop", "rec", "macro", "sleep", "deref">>
 Txt(t) == CASE t = "loop" -> "(lp 0)" [] t = "rec" -> "(rcl)" [] t = "macro" -> "(spin)"
             [] t = "sleep" -> "(sleep 100000)" [] t = "deref" -> "@(future (sleep 100000))" [] t = "value" -> ":h"
 RECURSIVE Text(_)
+\* a handler / finally body that is a plain value is written with TWO forms, the first one an effect: the handler
+\* (and the finally body) "still gets to run" means every one of its forms does
 Text(s) == IF s.t = "try"
-           THEN "(try " \o Text(s.body) \o (IF s.h.t # "none" THEN " (catch e " \o Text(s.h) \o ")" ELSE "") \o
-                (IF s.f.t # "none" THEN " (finally " \o Text(s.f) \o ")" ELSE "") \o ")"
+           THEN "(try " \o Text(s.body) \o
+                (IF s.h.t = "none" THEN "" ELSE IF s.h.t = "value" THEN " (catch e (trace! :hh) :h)"
+                 ELSE " (catch e " \o Text(s.h) \o ")") \o
+                (IF s.f.t = "none" THEN "" ELSE IF s.f.t = "value" THEN " (finally (trace! :ff) :h)"
+                 ELSE " (finally " \o Text(s.f) \o ")") \o ")"
            ELSE Txt(s.t)
 
 \* bare shapes; each as try body with every handler kind and finally kind; nested twice
